@@ -17,8 +17,10 @@ PROFILES = {
     "nexus": ("nexus", "Cisco Nexus 9336", "no", "exit"),
     # a flattening vendor: one `set ...` / `delete ...` line per command (judged by Device.ExecAllFlat)
     "juniper": ("juniper", "Juniper MX960", "delete", ""),
+    # same formatter family, own vendor class: which diff functions a rule gets by default (plain / %ordered) is the vendor's answer
+    "ribbon": ("ribbon", "Ribbon OPT9608", "delete", ""),
 }
-FLAT = {"juniper"}
+FLAT = {"juniper", "ribbon"}
 
 LOGIC_PARAM = {"undo_redo": "common.undo_redo", "permanent": "common.permanent", "ignore_changes": "common.ignore_changes"}
 
